@@ -240,7 +240,7 @@ def run(ctx):
             tasks.append((w, "default", rng.getrandbits(48), quick))
             if not quick or len(tasks) % 4 == 0:
                 tasks.append((w, "jitter", rng.getrandbits(48), quick))
-        for _ in range(30 if quick else 300):
+        for _ in range(20 if quick else 300):
             w = worlds.random_world(rng, maxatoms=5, nspecies=rng.choice((1, 2, 2, 3)))
             tasks.append((w, "default", rng.getrandbits(48), quick))
         outs = pool.map(realise_or_fail, tasks, chunksize=1)
